@@ -1,0 +1,25 @@
+//go:build verif
+
+// Contracts for package scorch: Rollback (read by /verif/gocv; comment-only effect with the verif
+// tag off).
+
+package scorch
+
+// ---------------------------------------------------------------------------
+// C13: Rollback(path, to) deletes the persisted snapshots that are younger than the chosen point and
+// never the chosen point itself; its write transaction is committed or rolled back; the metadata
+// store is closed again.
+// ---------------------------------------------------------------------------
+
+//@ assume func bbolt.DB.Close(db)
+
+// The epochs collected by the read transaction (a function literal run by View) are arbitrary
+// here: the contract is about what the delete loop does with them.
+//@ func Rollback
+//@   props C13
+//@   mode int
+//@   requires openTx >= 0 && openTx < 1000000
+//@   modifies openTx, bbolt.Tx.open
+//@   at call snapshots.DeleteBucket#0: assert epoch != to.epoch
+//@   ensures openTx == old(openTx)
+//@   loop 0: invariant to != nil && tx != nil && tx.Tx != nil && tx.Tx.open && snapshots != nil && snapshots.Bucket != nil && rootBolt != nil && openTx == old(openTx) + 1
